@@ -156,6 +156,24 @@ def test(inp):
             continue
         if keys[0] == keys[1]:
             return f'{g}: a one-ulp change of a float64 value did not change the key when the encoding names float32'
+    # the name of a geometry variable is part of the key: any other name gives another key - also a name that differs only in its Unicode
+    # composition (xarray keeps such names apart; they are different variables)
+    if spec['conv'] in ('cf1d', 'cf2d'):
+        g = [n for n in want if str(n).startswith('lon') and 'bnds' not in str(n)][0]
+        seen = {}
+        for new_name in ('lon_r\u00e9f', 'lon_re\u0301f', 'lon_\u212b', 'lon_\u00c5', 'longitude_2'):
+            d2 = datasets.build(spec).rename({g: new_name})
+            try:
+                if type(d2.ems) is not type(ds.ems):
+                    continue
+                k2 = make_cache_key(d2)
+            except Exception:
+                continue
+            if k2 == key:
+                return f'{g}: renaming it to {new_name!r} did not change the key'
+            if k2 in seen:
+                return f'{g}: the names {seen[k2]!r} and {new_name!r} give one key'
+            seen[k2] = new_name
     # F-ordered storage of the same values must give the same key
     for g in geometry_names(ds):
         base = datasets.build(spec)
